@@ -664,3 +664,47 @@ Theorem plan_keys_count d ms nmps k : In k (plan d ms nmps) ->
   (exists m, In m ms /\ 1 <= length k <= length m /\ k = firstn (length k) (dir d m)) /\
   2 <= count_occ kdec (flat_map (seqs d) ms) k.
 Proof. intros H. split; [exact (plan_keys d ms nmps k H)|exact (plan_count_ge2 d ms nmps k H)]. Qed.
+
+(* ============================================================================ the caller's list *)
+Section SymListProofs.
+Variables E Ob V Sym Mdl St : Type.
+Variable build : Mdl -> Sym -> hop Ob.
+Variable stepo : St -> domain -> nat -> Ob -> E -> E.
+Variable init : E.
+Variable dflt : Ob.
+Variable dot : E -> E -> V.
+Notation call := (expectations_call E Ob V Sym Mdl St build stepo init dflt dot).
+Notation conv := (convert Ob Sym Mdl build).
+
+Theorem call_frame mdl st nmps lst : snd (call mdl st nmps lst) = lst.
+Proof. reflexivity. Qed.
+
+(* a second call with the same list gives what a call with a fresh copy of the list gives: nothing of the first
+   call (its model, its state) survives in the list *)
+Theorem two_calls_independent mA sA nA mB sB nB lst :
+  two_calls E Ob V Sym Mdl St build stepo init dflt dot mA sA nA mB sB nB lst =
+  (fst (call mA sA nA lst), fst (call mB sB nB lst), lst).
+Proof. reflexivity. Qed.
+
+Lemma Forall2_map_r {A B C} (P : A -> C -> Prop) (f : B -> C) vs l :
+  Forall2 P vs (map f l) -> Forall2 (fun v x => P v (f x)) vs l.
+Proof.
+  revert vs. induction l as [|x l IH]; intros vs H; inversion H; subst; constructor; [assumption|]. apply IH. assumption.
+Qed.
+
+(* every value depends on (state, model, entry) only: it is the cut value of the operator built for THIS model *)
+Theorem call_values mdl st nmps lst :
+  (forall x, In x lst -> length (conv mdl x) = nmps) ->
+  (forall h o o', In (h, o) (concat (map (conv mdl) lst)) -> In (h, o') (concat (map (conv mdl) lst)) -> o = o') ->
+  exists vs, fst (call mdl st nmps lst) = Some vs /\
+    Forall2 (fun v x => exists k, k <= nmps /\ v = split_value E Ob V (stepo st) init dot k (map snd (conv mdl x))) vs lst.
+Proof.
+  intros Hlen Hinj.
+  destruct (expectations_fast_split E Ob V (stepo st) init dflt dot nmps (map (conv mdl) lst)) as [vs [H1 H2]].
+  - intros m Hm. apply in_map_iff in Hm. destruct Hm as [x [<- Hx]]. apply Hlen. exact Hx.
+  - exact Hinj.
+  - exists vs. split; [exact H1|].
+    apply (Forall2_map_r (fun v m => exists k, k <= nmps /\ v = split_value E Ob V (stepo st) init dot k (map snd m)) (conv mdl)).
+    exact H2.
+Qed.
+End SymListProofs.
